@@ -99,6 +99,16 @@ fn lambert_w(x: f64) -> f64 {
     w
 }
 
+/// `f64::acosh` overflows to infinity above f64::MAX / 2, where acosh(x) = ln(2x) is still finite.
+fn acosh(x: f64) -> f64 {
+    let y = x.acosh();
+    if y.is_infinite() && x.is_finite() {
+        x.ln() + std::f64::consts::LN_2
+    } else {
+        y
+    }
+}
+
 pub fn eval(expr: Node) -> Result<f64, Box<dyn error::Error>> {
     #[cfg(feature = "verif_hooks")]
     crate::verif_hooks::tick();
@@ -174,7 +184,7 @@ pub fn eval(expr: Node) -> Result<f64, Box<dyn error::Error>> {
         Acos(sub_expr) => Ok(eval(*sub_expr)?.acos()),
         Atan(sub_expr) => Ok(eval(*sub_expr)?.atan()),
         Arsinh(sub_expr) => Ok(eval(*sub_expr)?.asinh()),
-        Arcosh(sub_expr) => Ok(eval(*sub_expr)?.acosh()),
+        Arcosh(sub_expr) => Ok(acosh(eval(*sub_expr)?)),
         Artanh(sub_expr) => Ok(eval(*sub_expr)?.atanh()),
         Sqrt(sub_expr) => Ok(eval(*sub_expr)?.sqrt()),
         Ln(sub_expr) => Ok(eval(*sub_expr)?.ln()),
